@@ -115,6 +115,18 @@ def run(chk):
     for helper in ("a_is_1", "a_is_0", "g_x_in_fi", "g_1_not_in_fi", "a_not_x", "a_not_X", "a_X"):
         spec = {"a": ("input", []), "b": ("input", []), "g": ("or", ["a", "b"]), helper: ("not", ["b"]), "h": ("nand", ["g", helper, "a"])}
         name_models.append((f"net-named-{helper}", build(spec, outputs=["h"])))
+    # a net whose companion name and its first eleven numbered variants are all taken by nets of the circuit itself, and a net with
+    # fourteen or-type loads (the helper names then run past `_10`, where the name generator changes its stride)
+    spec = {"a": ("input", []), "b": ("input", []), "a_X": ("and", ["a", "b"])}
+    for i_ in range(11):
+        spec[f"a_X_{i_}"] = (("or", "nand", "xor")[i_ % 3], ["a", "b"] if i_ % 2 else ["a_X", "b"])
+    spec["h"] = ("xor", ["a_X_10", "a_X_3", "a"])
+    name_models.append(("companion-name-and-eleven-numbered-variants-taken", build(spec, outputs=["h", "a_X_10"])))
+    spec = {"p": ("input", []), "q": ("input", []), "r": ("input", [])}
+    for i_ in range(14):
+        spec[f"l{i_}"] = (("or", "nor")[i_ % 2], ["p", "q" if i_ % 3 else "r"])
+    spec["h"] = ("xor", [f"l{i_}" for i_ in range(14)])
+    name_models.append(("fourteen-or-type-loads-on-one-net", build(spec, outputs=["h"])))
     fams = const_models + name_models + wide_models + list(one_gate_circuits(max_arity=3)) + list(deep_circuits()) + list(two_level_circuits(limit=80 if chk.tier == "quick" else None))
     from ..corpus import corpus
 
@@ -131,7 +143,7 @@ def run(chk):
     from ..pkgenv import FullStackCaller
 
     FS = FullStackCaller(repo)
-    fs_runs = [(f"{k_}@full-stack", c_, FS) for k_, c_ in fams if k_ in ("reconv", "consts", "fanout", "in-is-out", "controlling-constants", "net-named-a_X") or k_.startswith("corpus::") and "@" not in k_][:14]
+    fs_runs = [(f"{k_}@full-stack", c_, FS) for k_, c_ in fams if k_ in ("reconv", "consts", "fanout", "in-is-out", "controlling-constants", "net-named-a_X", "companion-name-and-eleven-numbered-variants-taken", "fourteen-or-type-loads-on-one-net") or k_.startswith("corpus::") and "@" not in k_][:16]
     for kname, c, caller in [(k_, c_, P) for k_, c_ in fams] + fs_runs:
         snap = c._snapshot()
         r = caller.call(FILE, "ternary", c)
